@@ -684,10 +684,13 @@ func tlCancelAt(s *Stream, rng *Rng, L, Q int, point, base, ctxKind string) {
 			waitUntil(2*time.Second, func() bool { return tl.Status().PendingTask == L*(Q+1) })
 		}
 		if base == "producers-blocked" {
+			perLane := 1 + rng.Intn(3) // up to three producers stuck on the same full lane
 			for lane := 0; lane < L; lane++ {
-				bg.Add(1)
-				t := newTask(false)
-				go func(lane int) { defer bg.Done(); push(t, lane) }(lane)
+				for k := 0; k < perLane; k++ {
+					bg.Add(1)
+					t := newTask(false)
+					go func(lane int) { defer bg.Done(); push(t, lane) }(lane)
+				}
 			}
 			time.Sleep(2 * time.Millisecond)
 		}
@@ -986,6 +989,22 @@ func tlOddLifetimes(s *Stream, rng *Rng, L, Q int) {
 		s.Evaluations++
 		s.Nontrivial(fmt.Sprintf("cancel-cause/%d/%d", L, Q))
 	}
+	// (g) a context WITH a deadline that is cancelled long before it: also after the original deadline
+	// has passed the lane answers with the context's error (Canceled), not with a deadline error
+	{
+		sc := tlScenario{Kind: "deadline-context-cancelled-early", L: L, Q: Q}
+		ctx, cancel := context.WithDeadline(context.Background(), time.Now().Add(40*time.Millisecond))
+		tl := tasklane.New(ctx, L, Q)
+		tl.SetTimeout(tlDeadline)
+		r := newTLRun()
+		err := tl.PushTask(&tlTask{id: 1, r: r}, 0)
+		waitUntil(25*time.Millisecond, func() bool { _, fin, _, _ := r.snapshot(); return fin == 1 || err != nil })
+		cancel()
+		time.Sleep(50 * time.Millisecond) // the original deadline is in the past now
+		tlFinalChecks(s, sc, tl, r, []tlPush{{1, 0, err}}, ctx)
+		s.Evaluations++
+		s.Nontrivial(fmt.Sprintf("deadline-cancelled-early/%d/%d", L, Q))
+	}
 	// (c)
 	{
 		sc := tlScenario{Kind: "goexit-task", L: L, Q: Q}
@@ -1058,6 +1077,117 @@ func tlStuckLanes(s *Stream, rng *Rng, L, Q int) {
 	s.Evaluations++
 	s.Count(fmt.Sprintf("stuck-lanes.L%d.Q%d", L, Q))
 	s.Nontrivial(fmt.Sprintf("stuck-lanes/%d/%d/%d/%d", L, Q, perLane, freed))
+}
+
+// ---- scenario: a long task at the head of a lane with short ones behind it (C08) -------------------
+
+// All workers busy; lane t receives a long task X and then short tasks. One worker is freed and takes X;
+// a second worker is freed afterwards: it has nothing else to do and must run the short tasks of lane t
+// although X is still running (whichever worker X ended up on).
+func tlBacklog(s *Stream, rng *Rng, L, Q int) {
+	sc := tlScenario{Kind: "backlog-behind-long-task", L: L, Q: Q, Seed: rng.s}
+	ctx, cancel := context.WithCancel(context.Background())
+	defer cancel()
+	tl := tasklane.New(ctx, L, Q)
+	tl.SetTimeout(tlDeadline)
+	if rng.Intn(2) == 0 {
+		tl.SetTimeout(time.Hour) // the push timeout has no bearing on how tasks are shared out
+		sc.Detail = "push timeout 1h; "
+	}
+	r := newTLRun()
+	var pushes []tlPush
+	rel := make([]chan struct{}, L)
+	for i := 0; i < L; i++ {
+		rel[i] = make(chan struct{})
+		t := &tlTask{id: 9000 + i, r: r, block: rel[i]}
+		pushes = append(pushes, tlPush{t.id, i, tl.PushTask(t, i)})
+	}
+	if !waitUntil(tlDeadline, func() bool { return r.startedCount() == L }) {
+		s.Violate("accepted-task-not-started", fmt.Sprintf("only %d of %d long tasks started with all workers idle", r.startedCount(), L), sc)
+		return
+	}
+	target := rng.Intn(L)
+	relX := make(chan struct{})
+	x := &tlTask{id: 8000, r: r, block: relX}
+	pushes = append(pushes, tlPush{x.id, target, tl.PushTask(x, target)})
+	m := Q
+	for i := 0; i < m; i++ {
+		t := &tlTask{id: i, r: r}
+		pushes = append(pushes, tlPush{i, target, tl.PushTask(t, target)})
+	}
+	first := rng.Intn(L)
+	second := (first + 1 + rng.Intn(L-1)) % L
+	close(rel[first])
+	if !waitUntil(tlDeadline, func() bool { return r.isStarted(8000) }) {
+		s.Violate("head-of-line-blocking", fmt.Sprintf("the long task at the head of lane %d did not start although a worker has been idle for %v", target, tlDeadline), sc)
+	}
+	close(rel[second])
+	sc.NTasks = m
+	sc.Detail += fmt.Sprintf("all %d workers busy; lane %d gets a long task and %d short ones; the task pushed to lane %d returns (a worker takes the long task), then the one pushed to lane %d", L, target, m, first, second)
+	ok := waitUntil(tlDeadline, func() bool {
+		starts, _, _, _ := r.snapshot()
+		for i := 0; i < m; i++ {
+			if starts[i] == 0 {
+				return false
+			}
+		}
+		return true
+	})
+	if !ok {
+		s.Violate("head-of-line-blocking", fmt.Sprintf("short tasks queued behind a long-running task did not start within %v although another worker is idle (%s)", tlDeadline, sc.Detail), sc)
+	}
+	close(relX)
+	for i := range rel {
+		if i != first && i != second {
+			close(rel[i])
+		}
+	}
+	waitUntil(tlDeadline, func() bool { _, fin, _, _ := r.snapshot(); return fin == m+L+1 })
+	cancel()
+	tlFinalChecks(s, sc, tl, r, pushes, ctx)
+	s.Evaluations++
+	s.Count(fmt.Sprintf("backlog.L%d.Q%d", L, Q))
+	s.Nontrivial(fmt.Sprintf("backlog/%d/%d/%d/%d/%d", L, Q, target, first, second))
+}
+
+// ---- scenario: a worker that has recovered many panics is as available as any other (C08/C14) -------
+
+func tlAfterPanics(s *Stream, rng *Rng, L int) {
+	sc := tlScenario{Kind: "after-many-panics", L: L, Q: 1, Seed: rng.s}
+	ctx, cancel := context.WithCancel(context.Background())
+	defer cancel()
+	tl := tasklane.New(ctx, L, 1)
+	tl.SetTimeout(tlDeadline)
+	r := newTLRun()
+	var pushes []tlPush
+	release := make(chan struct{})
+	for i := 0; i < L-1; i++ { // all workers but one are occupied for the whole scenario
+		t := &tlTask{id: 9000 + i, r: r, block: release}
+		pushes = append(pushes, tlPush{t.id, i, tl.PushTask(t, i)})
+	}
+	waitUntil(tlDeadline, func() bool { return r.startedCount() == L-1 })
+	const limit = 3 * time.Second
+	n := 18
+	for i := 0; i < n; i++ {
+		t := &tlTask{id: i, r: r}
+		if i < n-2 {
+			t.pv = fmt.Sprintf("panic %d", i)
+		}
+		t0 := time.Now()
+		pushes = append(pushes, tlPush{i, i % L, tl.PushTask(t, i%L)})
+		if !waitUntil(limit, func() bool { return r.isStarted(i) }) {
+			sc.Detail = fmt.Sprintf("%d of %d workers occupied; after %d recovered panics the next task (pushed to lane %d) was not started within %v", L-1, L, i, i%L, time.Since(t0).Round(time.Millisecond))
+			s.Violate("head-of-line-blocking", "a task at the head of a lane was not started although a worker has nothing to do: "+sc.Detail, sc)
+			break
+		}
+		waitUntil(tlDeadline, func() bool { _, fin, _, _ := r.snapshot(); return fin >= i+1 })
+	}
+	close(release)
+	waitUntil(tlDeadline, func() bool { return tl.Status().PendingTask == 0 })
+	cancel()
+	tlFinalChecks(s, sc, tl, r, pushes, ctx)
+	s.Evaluations++
+	s.Nontrivial(fmt.Sprintf("after-panics/%d", L))
 }
 
 // ---- scenario: many goroutines enter Wait() at the same moment, round after round (C07) ----------
@@ -1156,7 +1286,7 @@ func runTL(cfg Cfg, name string) {
 			}
 		}
 	case "tl_share":
-		s.Rule = "for laneSize 2..4, queueSize 0..3 and every number 1..laneSize-1 of pinned workers: short tasks all pushed to one lane must complete while the pinned workers stay blocked; all workers busy with a short task at the head of every lane, then one worker freed: every head completes; max concurrency <= laneSize on every run; non-trivial = distinct (L,Q,pinned,target lane,tasks)"
+		s.Rule = "for laneSize 2..4, queueSize 0..3 and every number 1..laneSize-1 of pinned workers: short tasks all pushed to one lane must complete while the pinned workers stay blocked; all workers busy with a short task at the head of every lane, then one worker freed: every head completes; a long task with short ones behind it in one lane, two workers freed one after the other; a task pushed after 1..16 recovered panics starts within 3 s; max concurrency <= laneSize on every run; non-trivial = distinct (L,Q,pinned,target lane,tasks)"
 		for rep := 0; rep < cfg.N(3, 25); rep++ {
 			for L := 2; L <= maxL+1 && L <= 4; L++ {
 				for Q := 0; Q <= maxQ; Q++ {
@@ -1176,8 +1306,14 @@ func runTL(cfg Cfg, name string) {
 						break
 					}
 					tlStuckLanes(s, rng.Fork(), L, Q)
+					if Q >= 1 {
+						tlBacklog(s, rng.Fork(), L, Q)
+					}
 				}
 			}
+		}
+		for L := 2; L <= 3 && !tlEnough(s); L++ {
+			tlAfterPanics(s, rng.Fork(), L)
 		}
 		for i := 0; i < cfg.N(40, 400); i++ {
 			if tlEnough(s) {
